@@ -1247,6 +1247,10 @@ impl<'ctx> ByteCompiler<'ctx> {
         &mut self,
         condition: Option<&Expression>,
     ) -> Option<HoistedOperand> {
+        #[cfg(boa_verif)]
+        if crate::verif::no_hoist() {
+            return None;
+        }
         let condition = condition?;
         let Expression::Binary(binary) = condition else {
             return None;
@@ -1322,6 +1326,10 @@ impl<'ctx> ByteCompiler<'ctx> {
         binary: &Binary,
         hoisted: Option<&HoistedOperand>,
     ) -> Option<Label> {
+        #[cfg(boa_verif)]
+        if crate::verif::no_fusion() {
+            return None;
+        }
         use crate::vm::opcode::BytecodeEmitter;
 
         let emit_fn: fn(&mut BytecodeEmitter, Address, RegisterOperand, RegisterOperand) = match op
@@ -2275,6 +2283,10 @@ impl<'ctx> ByteCompiler<'ctx> {
                                     .emit_move(cache_reg.variable(), value.variable());
                                 self.const_binding_cache
                                     .insert(binding.locator(), cache_reg.index());
+                                #[cfg(boa_verif)]
+                                if crate::verif::no_const_cache() {
+                                    self.const_binding_cache.remove(&binding.locator());
+                                }
                                 self.register_allocator.dealloc(value);
                             }
                         }
